@@ -114,15 +114,34 @@ Definition oracle1 (c : scase) (out : list Z) : bool :=
   | _ => false
   end.
 
+(* ---- X509::is_time_valid: the validity period, in milliseconds since the epoch ----
+   (the certificate's notBefore / notAfter are whole seconds; the clock has a sub-second part).
+   Both ends of the period are inside it. *)
+Definition time_class (nb na now : Z) : tval :=
+  if now <? nb then TimeNotYet else if na <? now then TimeExpired else TimeValid.
+Definition time_status (nb na now : Z) : Z :=
+  match time_class nb na now with TimeValid => Good | _ => BadCertificateTimeInvalid end.
+
 (* a case is a HISTORY on one CertificateStore instance: before every step the directories are put
    into the step's state (files added / removed / replaced, flags set through the setters); the
-   verdict of a step must depend on that state only, not on what the instance has seen before *)
-Definition case := list scase.
-Definition run (c : case) : list Z := flat_map run1 c.
+   verdict of a step must depend on that state only, not on what the instance has seen before.
+   A step is a validation through the store, or a direct question "is this certificate, valid
+   from nb to na, valid at the instant now" (the store asks it with the wall clock). *)
+Inductive step := SVal (c : scase) | STime (nb na now : Z).
+Definition case := list step.
+Definition run_step (s : step) : list Z :=
+  match s with SVal c => run1 c | STime nb na now => [time_status nb na now] end.
+Definition run (c : case) : list Z := flat_map run_step c.
+Definition oracle_step (s : step) (out : list Z) : bool :=
+  match s with
+  | SVal c => oracle1 c out
+  | STime nb na now =>
+      match out with [st] => Bool.eqb (st =? Good) ((nb <=? now) && (now <=? na)) | _ => false end
+  end.
+Definition width (s : step) : nat := match s with SVal _ => 3%nat | STime _ _ _ => 1%nat end.
 Fixpoint oracle (c : case) (out : list Z) : bool :=
-  match c, out with
-  | [], [] => true
-  | s :: c', a :: b :: d :: out' => oracle1 s [a; b; d] && oracle c' out'
-  | _, _ => false
+  match c with
+  | [] => match out with [] => true | _ => false end
+  | s :: c' => oracle_step s (firstn (width s) out) && oracle c' (skipn (width s) out)
   end.
 Definition known (c : case) : Z := 0.
